@@ -38,10 +38,15 @@ def correspond(ctx):
         "enum values are identified by module.qualname:name; `is_folder` of a serialised data path is not compared",
         "argument validation on load is the identity on values that were validated when first set (exercised, not proved)",
         "SHA-256 itself is not verified (identifier bytes of model and implementation are compared)",
+        "a class is identified by (package module, qualified name) or, outside a package, by (defining file, qualified name): the module name under which a file is registered is not part of the identity",
     ]
     libs, cases = seriallib.make_cases(ctx, rng, "c12", ctx.scale(6, 30), ctx.scale(80, 130), "c12")
     recs = seriallib.run(ctx, libs, cases, shards=ctx.scale(8, 12))
     seriallib.evaluate(ctx, libs, cases, recs, "definition list / reloaded graph / recomputed identifier")
+    # classes that do not live in a package (recorded with their file): written by one script, loaded by a fresh process
+    fcases = seriallib.make_file_cases(ctx, rng, ctx.scale(6, 32))
+    frecs = seriallib.run(ctx, libs[:1], fcases, shards=ctx.scale(6, 12))
+    seriallib.evaluate(ctx, libs[:1], fcases, frecs, "classes of plain scripts: definition list / reloaded graph")
     if not ctx.quick():
         plibs, pcases = seriallib.make_proc_cases(ctx, rng, "c12", 8, 15, "c12p")
         precs = seriallib.run(ctx, plibs, pcases, shards=12)
@@ -114,7 +119,7 @@ def run_witness(ctx, finding):
 
 def replay(ctx, obj):
     prove(ctx)
-    n = seriallib.replay_cases(ctx, obj, ("c12", "proc"))
+    n = seriallib.replay_cases(ctx, obj, ("c12", "proc", "files"))
     if n == 0:
         correspond(ctx)
     return common.verdict(ctx, search)
